@@ -171,34 +171,30 @@ def extract(g, X):
             return b
         return f
 
+    def hexspec(spec):
+        m = re.fullmatch(r"0(\d)([Xx])", spec)
+        return m.group(1), ("1" if m.group(2) == "X" else "0")
+
     def wcid():
-        b = X.fn_body(font, "write_cid")
-        m = re.search(r'write!\(\s*\w+\s*,\s*"(.)\{:0(\d)([Xx])\}(.)"\s*,\s*\w+\s*\)', b)
-        return str(ord(m.group(1))), m.group(2), ("1" if m.group(3) == "X" else "0"), str(ord(m.group(4)))
+        (c,) = X.fmt_calls(X.fn_body(font, "write_cid"))
+        (_, spec), = c["holes"]
+        (o,), (cl_,) = X.fmt_split(c)
+        return (str(o),) + hexspec(spec) + (str(cl_),)
     g.attempt([("font_wcid_open", "N"), ("font_wcid_digits", "N"), ("font_wcid_upper", "N"), ("font_wcid_close", "N")],
               "font: font.rs:write_cid", wcid)
 
     def wuni():
-        b = X.fn_body(font, "write_unicode")
-        lits = re.findall(r'write!\(\s*\w+\s*,\s*(' + STR + r')', b)
-        if len(lits) != 3:
-            raise ValueError("write_unicode literals %r" % (lits,))
-        m = re.fullmatch(r'"\{:0(\d)([Xx])\}"', lits[1])
-        o, c = rust_str(lits[0]), rust_str(lits[2])
-        if len(o) != 1 or len(c) != 1:
-            raise ValueError("delimiters")
-        return str(o[0]), m.group(1), ("1" if m.group(2) == "X" else "0"), str(c[0])
+        calls = X.fmt_calls(X.fn_body(font, "write_unicode"))
+        if len(calls) != 3 or calls[0]["holes"] or calls[2]["holes"] or len(calls[1]["holes"]) != 1 or X.fmt_split(calls[1]) != [[], []]:
+            raise ValueError("write_unicode literals")
+        (o,), (c,) = X.fmt_literal(calls[0]), X.fmt_literal(calls[2])
+        return (str(o),) + hexspec(calls[1]["holes"][0][1]) + (str(c),)
     g.attempt([("font_wuni_open", "N"), ("font_wuni_digits", "N"), ("font_wuni_upper", "N"), ("font_wuni_close", "N")],
               "font: font.rs:write_unicode", wuni)
 
     def wcmap():
         b = X.fn_body(font, "write_cmap")
-        toks = []
-        for m in re.finditer(r'(writeln|write)!\(\s*\w+\s*(?:,\s*(' + STR + r'))?\s*\)', b):
-            s = rust_str(m.group(2)) if m.group(2) else []
-            if m.group(1) == "writeln":
-                s = s + [10]
-            toks.append(s)
+        toks = [X.fmt_literal(c) for c in X.fmt_calls(b) if not c["holes"]]
         # order in the source: bfchar open, cid/unicode separator, line end, bfchar close,
         #                      bfrange open, lo/hi separator, array open, item separator, array close + line end, bfrange close
         if len(toks) != 10:
